@@ -71,6 +71,7 @@ COQ_TY = {"int": "Z", "bytes": "bytes", "bool": "bool", "boollist": "list bool",
           "char": "Z",                # a one-character str (the element of iterating over a str): its code point
           "optstr": "option (list Z)",
           "filebuf": "bytes",
+          "stage": "stage",           # an element of SevenZipDecompressor.chain: abstract (Section variable of gen/DecompChain.v)
           "wbuf": "bytes",            # a local io.BytesIO() that is only written to: what has been written         # io.BytesIO(data) read sequentially: what is left of it
           "iter:bool": "list bool",
           "optbool": "option bool",   # a dict entry that holds a bool when present (None: the key is absent)
@@ -200,6 +201,10 @@ CLASSES3["StreamsInfo"] = {"packinfo": "opt:PackInfo", "unpackinfo": "opt:Unpack
 CLASSES3["FileEntry"] = {"emptystream": "bool", "emptyfile": "key:bool", "filename": "key:str", "creationtime": "key:optint",
                          "lastaccesstime": "key:optint", "lastwritetime": "key:optint", "attributes": "key:optint"}
 CLASSES3["FilesInfo"] = {"files": "list:FileEntry", "emptyfiles": "boollist"}
+# compressor.SevenZipDecompressor: the attributes _decompress / _read_data / decompress touch
+CLASSES3["SevenZipDecompressor"] = {"chain": "list:stage", "_unpacked": "list:int", "_unpacksizes": "list:int", "consumed": "int",
+                                    "input_size": "int", "block_size": "int", "_unused": "bytes", "_buf": "bytes", "_pos": "int",
+                                    "digest": "int", "_delivered": "int"}
 # HeaderStreamsInfo(StreamsInfo): the same three attributes (its __init__ fills two of them; it is not translated)
 CLASSES3["HeaderStreamsInfo"] = {"packinfo": "opt:PackInfo", "unpackinfo": "opt:UnpackInfo", "substreamsinfo": "opt:SubstreamsInfo"}
 CLASSES3["SignatureHeader"] = {"version": "tuple:bytes,bytes", "startheadercrc": "int", "nextheaderofs": "int",
@@ -209,7 +214,7 @@ CTOR_RECORDS = {"Bond": ["incoder", "outcoder"]}   # classes built as C(a, b): _
 # attributes __init__ sets to None that no translated method touches (compressor objects, password, ...)
 IGNORED_ATTRS = {"Folder": ["decompressor", "compressor", "files", "password"], "FilesInfo": ["antifiles"]}
 # exception classes -> the err constructor of Prelude.v the model uses for them (anything else: EOther)
-EXC_ERR = {"Bad7zFile": "EBad7z", "UnsupportedCompressionMethodError": "EUnsupported"}
+EXC_ERR = {"Bad7zFile": "EBad7z", "UnsupportedCompressionMethodError": "EUnsupported", "EOFError": "EEof"}
 # module-level objects of other modules whose attributes are constants: local name -> (module file, instance name)
 CONST_OBJECTS = {"PROPERTY": ("properties.py", "PROPERTY")}
 
@@ -295,6 +300,18 @@ for _key in ("creationtime", "lastaccesstime", "lastwritetime"):
     WAVE2["FilesInfo._write_times[%s]" % _key]["qual"] = "FilesInfo._write_times"
 # FilesInfo.write pads to a multiple of 4 from file.tell(): the position at entry is the explicit parameter pos0
 _rec3("FilesInfo.write", "objwriter", "FilesInfo", "FilesInfo_write", tell=True, locals={"emptystreams": "boollist"})
+# stage 7: SevenZipDecompressor (record of the attributes the three methods touch; __init__ is not translated)
+def _dec(name, kind, coqname, **kw):
+    WAVE2[name] = dict(file="compressor.py", qual=name, kind=kind, cls="SevenZipDecompressor", coqname=coqname, out="DecompChain",
+                       noinit=True, **dict({"args": {}, "ret": None}, **kw))
+
+
+_dec("SevenZipDecompressor", "record", "SevenZipDecompressor")
+_dec("SevenZipDecompressor._decompress", "objproc", "SevenZipDecompressor_decompress_chain", args={"data": "bytes", "max_length": "int"},
+     ret="bytes", retself=True)
+_dec("SevenZipDecompressor._read_data", "objreader", "SevenZipDecompressor_read_data", ret="bytes", retself=True, short_reads=True)
+_dec("SevenZipDecompressor.decompress", "objreader", "SevenZipDecompressor_decompress", args={"max_length": "int"}, ret="bytes",
+     retself=True, short_reads=True, fuel=True)
 # the descriptor of an encoded header
 _rec3("HeaderStreamsInfo", "record", "HeaderStreamsInfo", "HeaderStreamsInfo")
 _rec3("HeaderStreamsInfo.write", "objwriter", "HeaderStreamsInfo", "HeaderStreamsInfo_write", init_of="StreamsInfo")
@@ -313,7 +330,7 @@ _sig("SignatureHeader.write", "objwriter", "SignatureHeader_write", seek0=True)
 _sig("SignatureHeader._write_skeleton", "objwriter", "SignatureHeader_write_skeleton", seek0=True)
 
 for _k, _v in WAVE2.items():
-    if _v["out"] in ("ArchiveinfoRecords", "ArchiveinfoSig"):
+    if _v["out"] in ("ArchiveinfoRecords", "ArchiveinfoSig", "DecompChain"):
         _v["join"] = True     # an `if` whose branches fall through is emitted once, yielding the variables it assigns
 OUT_FILES = {
     # out -> (source description, Require line[, lines opening a Section, line closing it])
@@ -332,6 +349,13 @@ OUT_FILES = {
                        "From P7 Require Import Prelude PyPrims PyStr PyRe.\nFrom P7gen Require Import ArchiveinfoPrims ArchiveinfoRecords.\n"
                        "From P7gen Require HelpersCrc.",
                        "Section ArchiveinfoSig.\nVariable zcrc32 : bytes -> Z -> Z.   (* zlib.crc32(data, value) *)\n", "End ArchiveinfoSig."),
+    # SevenZipDecompressor: the stage decoders of self.chain are abstract (a state and the one call made on them), the file may
+    # return fewer bytes than asked for (rd : the most this read returns), the digest goes through helpers.calculate_crc32
+    "DecompChain": ("py7zr/compressor.py (class SevenZipDecompressor: _decompress, _read_data, decompress)",
+                    "From P7 Require Import Prelude PyPrims PyStr PyRe.\nFrom P7gen Require HelpersCrc.",
+                    "Section DecompChain.\nVariable stage : Type.                                   (* an element of self.chain *)\n"
+                    "Variable dstep : stage -> bytes -> Z -> stage * bytes.   (* decompressor.decompress(data, max_length) *)\n"
+                    "Variable zcrc32 : bytes -> Z -> Z.                       (* zlib.crc32(data, value) *)\n", "End DecompChain."),
     "HelpersCrc": ("py7zr/helpers.py (calculate_crc32)", "From P7 Require Import Prelude PyPrims PyStr.",
                    "Section HelpersCrc.\nVariable zcrc32 : bytes -> Z -> Z.   (* zlib.crc32(data, value) *)\n", "End HelpersCrc."),
 }
@@ -876,7 +900,7 @@ class FnTr:
                                                                            "    else Ok (%s, false)) [];" % acc]
             lines += ["let %s := %ss in" % (nm, nm)]
             return lines, nm, ("boollist" if te == "bool" else "list:" + te)
-        if g.ifs and self.spec.get("out") in ("ArchiveinfoRecords", "ArchiveinfoSig") and isinstance(g.target, ast.Name) and g.target.id not in self.ty \
+        if g.ifs and self.spec.get("out") in ("ArchiveinfoRecords", "ArchiveinfoSig", "DecompChain") and isinstance(g.target, ast.Name) and g.target.id not in self.ty \
                 and not self.has_io(e):
             # [elt for x in L if cond]
             p, v, t = self.expr(it)
@@ -895,7 +919,7 @@ class FnTr:
             return lines, nm, ("boollist" if te == "bool" else "list:" + te)
         if g.ifs:
             self.refuse(e, "comprehension filter")
-        if isinstance(e.elt, ast.Dict) and self.spec.get("out") in ("ArchiveinfoRecords", "ArchiveinfoSig") and isinstance(it, ast.Call) \
+        if isinstance(e.elt, ast.Dict) and self.spec.get("out") in ("ArchiveinfoRecords", "ArchiveinfoSig", "DecompChain") and isinstance(it, ast.Call) \
                 and isinstance(it.func, ast.Name) and it.func.id == "range" and len(it.args) == 1 and "range" not in self.local_names() \
                 and isinstance(g.target, ast.Name) and all(isinstance(k, ast.Constant) and isinstance(k.value, str) for k in e.elt.keys) \
                 and all(isinstance(v, ast.Constant) for v in e.elt.values):
@@ -988,7 +1012,7 @@ class FnTr:
         self.refuse(e, "binop %s on %s,%s" % (type(op).__name__, tl, tr))
 
     def compare(self, e):
-        if len(e.ops) == 2 and self.spec.get("out") in ("ArchiveinfoRecords", "ArchiveinfoSig") and isinstance(e.comparators[0], (ast.Name, ast.Constant)):
+        if len(e.ops) == 2 and self.spec.get("out") in ("ArchiveinfoRecords", "ArchiveinfoSig", "DecompChain") and isinstance(e.comparators[0], (ast.Name, ast.Constant)):
             # a OP b OP c = (a OP b) and (b OP c); b is a name / constant: evaluating it twice is evaluating it once
             pa, va, ta = self.compare(ast.copy_location(ast.Compare(left=e.left, ops=[e.ops[0]], comparators=[e.comparators[0]]), e))
             pb, vb, tb = self.compare(ast.copy_location(ast.Compare(left=e.comparators[0], ops=[e.ops[1]], comparators=[e.comparators[1]]), e))
@@ -1009,7 +1033,7 @@ class FnTr:
         pr, r, tr = self.expr(e.comparators[0])
         if isinstance(e.ops[0], (ast.Is, ast.IsNot)) and tr == "nonetype" and tl == "optstr":
             return pl, ("(negb (py_is_some %s))" if isinstance(e.ops[0], ast.Is) else "(py_is_some %s)") % l, "bool"
-        if isinstance(e.ops[0], (ast.Is, ast.IsNot)) and tr == "nonetype" and (self.fields or self.spec.get("out") in ("ArchiveinfoRecords", "ArchiveinfoSig")) \
+        if isinstance(e.ops[0], (ast.Is, ast.IsNot)) and tr == "nonetype" and (self.fields or self.spec.get("out") in ("ArchiveinfoRecords", "ArchiveinfoSig", "DecompChain")) \
                 and not pl and (tl in ("int", "bool", "bytes", "list:int", "boollist") or tl.startswith("list:")):
             # a record field / value of a non-optional type is never None
             return [], ("false" if isinstance(e.ops[0], ast.Is) else "true"), "bool"
@@ -1137,7 +1161,7 @@ class FnTr:
             finally:
                 self.filevar = old
             return [_re.sub(r"\binp\b", sub, x) for x in p], v, t
-        if self.spec.get("out") == "ArchiveinfoSig":
+        if self.spec.get("out") in ("ArchiveinfoSig", "DecompChain"):
             # a local io.BytesIO() that is only written to: the variable holds what has been written
             if isinstance(f, ast.Attribute) and isinstance(f.value, ast.Name) and self.ty.get(f.value.id) == "wbuf" \
                     and f.attr == "getvalue" and not args and not e.keywords:
@@ -1250,6 +1274,11 @@ class FnTr:
                 if t != "int":
                     self.refuse(e, "read size")
                 t1 = self.fresh()
+                if self.spec.get("short_reads"):
+                    self._short_read_nodes = getattr(self, "_short_read_nodes", set()) | {(e.lineno, e.col_offset)}
+                    if len(self._short_read_nodes) > 1:
+                        self.refuse(e, "a second read in a method whose file may return short reads")
+                    return p + ["let '(%s, inp) := py_read_short inp %s rd in" % (t1, n)], t1, "bytes"
                 return p + ["let '(%s, inp) := rd_read inp %s in" % (t1, n)], t1, "bytes"
             self.refuse(e, "file method " + f.attr)
         if isinstance(f, ast.Attribute):
@@ -1309,7 +1338,13 @@ class FnTr:
             t1 = self.fresh()
             it = args[0].id
             return ["let '(%s, %s) := py_next_default %s %s in" % (t1, it, it, "true" if args[1].value else "false")], t1, "bool"
-        if fn == "any" and self.spec.get("out") in ("ArchiveinfoRecords", "ArchiveinfoSig") and len(args) == 1 and not e.keywords \
+        if fn == "min" and self.spec.get("out") == "DecompChain" and len(args) == 2 and not e.keywords and "min" not in self.local_names():
+            pa, va, ta = self.expr(args[0])
+            pb, vb, tb = self.expr(args[1])
+            if ta != "int" or tb != "int":
+                self.refuse(e, "min() argument types")
+            return pa + pb, "(Z.min %s %s)" % (va, vb), "int"
+        if fn == "any" and self.spec.get("out") in ("ArchiveinfoRecords", "ArchiveinfoSig", "DecompChain") and len(args) == 1 and not e.keywords \
                 and isinstance(args[0], ast.GeneratorExp) and "any" not in self.local_names():
             ge = args[0]
             g = ge.generators[0]
@@ -1326,7 +1361,7 @@ class FnTr:
             return p, "(existsb (fun %s => %s) %s)" % (g.target.id, c, v), "bool"
         if fn == "iter" and self.module is not None and len(args) == 1 and not e.keywords and "iter" not in self.local_names():
             p, v, t = self.expr(args[0])
-            if t == "boollist" and self.spec.get("out") in ("ArchiveinfoRecords", "ArchiveinfoSig"):
+            if t == "boollist" and self.spec.get("out") in ("ArchiveinfoRecords", "ArchiveinfoSig", "DecompChain"):
                 return p, v, "iter:bool"
             if t != "list:int":
                 self.refuse(e, "iter() of " + t)
@@ -1386,6 +1421,8 @@ class FnTr:
             if self.module is not None:
                 p, v, t = self.unwrap(p, v, t) if t == "optbytes" else (p, v, t)
             return p, "(py_len %s)" % v, "int"
+        if fn in ("bytearray", "bytes") and not args and not e.keywords and self.spec.get("out") == "DecompChain":
+            return [], "[]", "bytes"
         if fn in ("bytearray", "bytes") and len(args) == 1:
             p, v, t = self.expr(args[0])
             if t == "bytes":
@@ -1429,7 +1466,7 @@ class FnTr:
                 p, v, t = self.expr(a)
                 if self.module is not None and t == "optbytes" and at == "bytes":
                     p, v, t = self.unwrap(p, v, t)
-                if self.spec.get("out") in ("ArchiveinfoRecords", "ArchiveinfoSig") and t == "optint" and at == "int":
+                if self.spec.get("out") in ("ArchiveinfoRecords", "ArchiveinfoSig", "DecompChain") and t == "optint" and at == "int":
                     p, v, t = self.unwrap(p, v, t)      # None where a number is packed: struct.error / TypeError
                 if t != at:
                     self.refuse(e, "argument type of %s.%s" % (fn, an))
@@ -1532,7 +1569,7 @@ class FnTr:
                 pre += p
                 vs.append(v)
             return pre, "(%s %s)" % (fn, " ".join(vs)), rt
-        if isinstance(f.value, ast.Name) and f.value.id == "self" and self.spec.get("out") in ("ArchiveinfoRecords", "ArchiveinfoSig"):
+        if isinstance(f.value, ast.Name) and f.value.id == "self" and self.spec.get("out") in ("ArchiveinfoRecords", "ArchiveinfoSig", "DecompChain"):
             return self.selfcall3(e)
         if isinstance(f.value, ast.Name) and f.value.id == "self" and self.kind == "method":
             return self.selfcall(e)
@@ -1601,7 +1638,7 @@ class FnTr:
             return p + pa, "(py_%s %s %s)" % (f.attr, v, a), "bool"
         if t == "path" and f.attr == "is_absolute" and not args:
             return p, "(pp_is_absolute %s)" % v, "bool"
-        if self.spec.get("out") in ("ArchiveinfoRecords", "ArchiveinfoSig") and len(args) == 1 and isinstance(args[0], ast.Constant) \
+        if self.spec.get("out") in ("ArchiveinfoRecords", "ArchiveinfoSig", "DecompChain") and len(args) == 1 and isinstance(args[0], ast.Constant) \
                 and args[0].value == "utf-16LE" and not e.keywords:
             t1 = self.fresh()
             if t == "bytes" and f.attr == "decode":
@@ -1610,9 +1647,21 @@ class FnTr:
                 return p + ["do %s <- py_encode_utf16le_char %s;" % (t1, v)], t1, "bytes"
             if t == "str" and f.attr == "encode":
                 return p + ["do %s <- py_encode_utf16le %s;" % (t1, v)], t1, "bytes"
-        if self.spec.get("out") in ("ArchiveinfoRecords", "ArchiveinfoSig") and t == "str" and f.attr == "replace" and len(args) == 2 and not e.keywords \
+        if self.spec.get("out") in ("ArchiveinfoRecords", "ArchiveinfoSig", "DecompChain") and t == "str" and f.attr == "replace" and len(args) == 2 and not e.keywords \
                 and all(isinstance(a, ast.Constant) and isinstance(a.value, str) and len(a.value) == 1 for a in args):
             return p, "(py_replace_char %s %d %d)" % (v, ord(args[0].value), ord(args[1].value)), "str"
+        if t == "stage" and f.attr == "decompress" and len(args) == 2 and not e.keywords and isinstance(f.value, ast.Name) \
+                and f.value.id in getattr(self, "enum_ctx", {}):
+            # decompressor.decompress(data, max_length) on the i-th element of self.chain: the abstract step; the element is
+            # an object that changes in place, i.e. the list holds the new state at index i
+            idx, lst = self.enum_ctx[f.value.id]
+            pa, va, ta = self.expr(args[0])
+            pb, vb, tb = self.expr(args[1])
+            if ta != "bytes" or tb != "int":
+                self.refuse(e, "argument types of a stage's decompress")
+            t1 = self.fresh()
+            return p + pa + pb + ["let '(%ss, %s) := dstep %s %s %s in" % (t1, t1, v, va, vb),
+                                  "do %s <- py_setitem %s %s %ss;" % (lst, lst, idx, t1)], t1, "bytes"
         self.refuse(e, "method %s of %s" % (f.attr, t))
 
     def class_node(self):
@@ -1828,6 +1877,40 @@ class FnTr:
                 vs.append(v)
             t1 = self.fresh()
             return pre + ["do %s <- %s %s;" % (t1, sp["coqname"], " ".join(vs))], t1, sp["ret"]
+        if sp.get("retself") and sp["kind"] == "objproc" and self.fields and not e.keywords and len(args) == len(sp["args"]) \
+                and self.kind in ("objproc", "objreader"):
+            pre, vs = [], [self.self_record()]
+            for a, (an, at) in zip(args, sp["args"].items()):
+                p, v, t = self.expr(a)
+                if t != at:
+                    self.refuse(e, "argument type of self.%s: %s" % (f.attr, t))
+                pre += p
+                vs.append(v)
+            t1, t2 = self.fresh(), self.fresh()
+            cls = self.spec["cls"]
+            lines = pre + ["do %sp <- %s %s;" % (t1, sp["coqname"], " ".join(vs)), "let '(%s, %s) := %sp in" % (t1, t2, t1)]
+            lines += ["let self_%s := %s_%s %s in" % (fld, cls, fld, t1) for fld in self.fields]
+            return lines, t2, sp["ret"]
+        if sp.get("retself") and sp["kind"] == "objreader" and self.kind == "objreader" and len(args) == 1 + len(sp["args"]) \
+                and self.is_file(args[0]) and not e.keywords and not sp.get("fuel") and bool(sp.get("short_reads")) == bool(self.spec.get("short_reads")):
+            if sp.get("short_reads"):
+                # at most one call site that reads: the branches of an `if` are alternatives, so two sites on different
+                # paths would be fine, but the one parameter rd stands for ONE read per call of this method
+                self._short_read_nodes = getattr(self, "_short_read_nodes", set()) | {(e.lineno, e.col_offset)}
+            pre, vs = [], []
+            for a, (an, at) in zip(args[1:], sp["args"].items()):
+                p, v, t = self.expr(a)
+                if t != at or self.has_io(a):
+                    self.refuse(e, "argument type of self.%s: %s" % (f.attr, t))
+                pre += p
+                vs.append(v)
+            t1, t2 = self.fresh(), self.fresh()
+            cls = self.spec["cls"]
+            lines = pre + ["do %sr <- %s %s inp%s%s;" % (t1, sp["coqname"], self.self_record(), "".join(" " + v for v in vs),
+                                                          " rd" if sp.get("short_reads") else ""),
+                           "let '((%s, %s), inp) := %sr in" % (t1, t2, t1)]
+            lines += ["let self_%s := %s_%s %s in" % (fld, cls, fld, t1) for fld in self.fields]
+            return lines, t2, sp["ret"]
         if sp["kind"] in ("objfun", "objproc") and self.fields and not e.keywords and len(args) == len(sp["args"]):
             pre, vs = [], [self.self_record()]
             for a, (an, at) in zip(args, sp["args"].items()):
@@ -1931,16 +2014,20 @@ class FnTr:
                 if sp is not None and sp["kind"] in ("objproc", "objreader"):
                     for fld in self.fields:
                         add("self_" + fld)
+            if isinstance(st, ast.Call) and isinstance(st.func, ast.Attribute) and st.func.attr == "decompress" \
+                    and isinstance(st.func.value, ast.Name) and self.spec.get("out") == "DecompChain" and self.fields \
+                    and "chain" in self.fields and st.func.value.id != "self":
+                add("self_chain")
             if isinstance(st, ast.Call) and isinstance(st.func, ast.Name) and st.func.id == "next" and len(st.args) in (1, 2) \
                     and isinstance(st.args[0], ast.Name) and self.module is not None:
                 add(st.args[0].id)
             if isinstance(st, ast.Call) and self.module is not None and isinstance(st.func, ast.Attribute) \
-                    and st.func.attr in ("retrieve", "write", "_read", "read") and self.io and self.spec.get("out") in ("ArchiveinfoRecords", "ArchiveinfoSig") \
+                    and st.func.attr in ("retrieve", "write", "_read", "read") and self.io and self.spec.get("out") in ("ArchiveinfoRecords", "ArchiveinfoSig", "DecompChain") \
                     and any(self.is_file(a) for a in st.args):
                 add(self.io)
             if isinstance(st, ast.Call) and self.module is not None and isinstance(st.func, ast.Attribute) \
                     and isinstance(st.func.value, ast.Name) and st.func.value.id == "self" and self.io \
-                    and self.spec.get("out") in ("ArchiveinfoRecords", "ArchiveinfoSig") and any(self.is_file(a) for a in st.args):
+                    and self.spec.get("out") in ("ArchiveinfoRecords", "ArchiveinfoSig", "DecompChain") and any(self.is_file(a) for a in st.args):
                 add(self.io)      # self.m(file, ..): a method of the class that reads / writes the file
             if isinstance(st, ast.Call) and self.module is not None and isinstance(st.func, ast.Attribute) and st.func.attr == "write" \
                     and self.fields and self.io == "out":
@@ -1967,6 +2054,10 @@ class FnTr:
         if self.loops:
             self.loops[-1]["ret"] = True
             return ["RETURN " + val]
+        if self.spec.get("retself") and self.kind == "objreader":
+            return ["Ok ((%s, %s), inp)" % (self.self_record(), val)]
+        if self.spec.get("retself") and self.kind == "objproc":
+            return ["Ok (%s, %s)" % (self.self_record(), val)]
         if self.kind == "objreader" and self.retty == "self" and val == "tt":
             return ["Ok (%s, inp)" % self.self_record()]
         if self.kind in ("objproc", "classinit"):
@@ -2052,7 +2143,7 @@ class FnTr:
             # `x: list[str] = []`
             ann = ast.unparse(st.annotation).replace("List", "list")
             if isinstance(st.target, ast.Name) and ann == "list[bool]" and isinstance(st.value, ast.List) and not st.value.elts \
-                    and self.spec.get("out") in ("ArchiveinfoRecords", "ArchiveinfoSig"):
+                    and self.spec.get("out") in ("ArchiveinfoRecords", "ArchiveinfoSig", "DecompChain"):
                 self.ty[st.target.id] = "boollist"
                 return ["let %s : list bool := [] in" % st.target.id] + cont()
             if not (isinstance(st.target, ast.Name) and ann == "list[str]" and isinstance(st.value, ast.List)
@@ -2080,7 +2171,7 @@ class FnTr:
                 and self.is_module("io") and not st.value.args and not st.value.keywords and st.targets[0].id not in self.ty:
             self.ty[st.targets[0].id] = "wbuf"
             return ["let %s : bytes := [] in" % st.targets[0].id] + cont()
-        if isinstance(st, ast.Assign) and self.spec.get("out") in ("ArchiveinfoRecords", "ArchiveinfoSig") and len(st.targets) == 1 \
+        if isinstance(st, ast.Assign) and self.spec.get("out") in ("ArchiveinfoRecords", "ArchiveinfoSig", "DecompChain") and len(st.targets) == 1 \
                 and isinstance(st.targets[0], ast.Name) and isinstance(st.value, ast.Call) and self.dotted(st.value.func) == "io.BytesIO" \
                 and self.is_module("io") and len(st.value.args) == 1 and not st.value.keywords and self.io == "inp" \
                 and st.targets[0].id != self.filevar and self.ty.get(st.targets[0].id, "filebuf") == "filebuf":
@@ -2135,7 +2226,8 @@ class FnTr:
             if isinstance(tg, ast.Name):
                 p, v, t = self.expr(ast.BinOp(left=ast.Name(id=tg.id, ctx=ast.Load()), op=st.op, right=st.value))
                 return p + ["let %s := %s in" % (tg.id, v)] + cont()
-            if isinstance(tg, ast.Subscript) and isinstance(tg.value, ast.Name) and self.ty.get(tg.value.id) == "bytes":
+            if isinstance(tg, ast.Subscript) and isinstance(tg.value, ast.Name) and (
+                    self.ty.get(tg.value.id) == "bytes" or (self.ty.get(tg.value.id) == "list:int" and self.spec.get("out") == "DecompChain")):
                 arr = tg.value.id
                 pi, i, ti = self.expr(tg.slice)
                 t0 = self.fresh()
@@ -2145,7 +2237,7 @@ class FnTr:
                 return pi + ["do %s <- py_index %s %s;" % (t0, arr, i)] + p + \
                     ["do %s <- py_setitem %s %s %s;" % (arr, arr, i, v)] + cont()
             self.refuse(st, "augassign target")
-        if isinstance(st, ast.Expr) and self.spec.get("out") in ("ArchiveinfoRecords", "ArchiveinfoSig") and isinstance(st.value, ast.Call) \
+        if isinstance(st, ast.Expr) and self.spec.get("out") in ("ArchiveinfoRecords", "ArchiveinfoSig", "DecompChain") and isinstance(st.value, ast.Call) \
                 and isinstance(st.value.func, ast.Name) and st.value.func.id == "list" and "list" not in self.local_names() \
                 and "map" not in self.local_names() and len(st.value.args) == 1 and not st.value.keywords \
                 and isinstance(st.value.args[0], ast.Call) and isinstance(st.value.args[0].func, ast.Name) \
@@ -2218,7 +2310,7 @@ class FnTr:
         if isinstance(st, ast.If) and self.module is not None and isinstance(st.test, ast.Compare) \
                 and len(st.test.ops) == 1 and isinstance(st.test.ops[0], (ast.Is, ast.IsNot)) \
                 and isinstance(st.test.comparators[0], ast.Constant) and st.test.comparators[0].value is None \
-                and not (self.spec.get("out") in ("ArchiveinfoRecords", "ArchiveinfoSig")):
+                and not (self.spec.get("out") in ("ArchiveinfoRecords", "ArchiveinfoSig", "DecompChain")):
             # `if x is None:` / `if x is not None:` on an Optional[int] variable: a match that rebinds x as the int
             x = st.test.left
             if not (isinstance(x, ast.Name) and self.ty.get(x.id) in ("optint", "optmatch2")):
@@ -2253,6 +2345,10 @@ class FnTr:
             self.ty = dict(saved)
             self.tmp = tmp0      # the two passes above only computed the types
             joined = [v for v in names if v in (self.io,) or v in saved or (v in ty_a and v in ty_b)]
+            if self.spec.get("out") == "DecompChain":
+                # a local that is not read after the `if` is not part of what the statement yields (it may be unbound on a path)
+                later = {n.id for r in rest for n in ast.walk(r) if isinstance(n, ast.Name)}
+                joined = [v for v in joined if v in (self.io,) or v.startswith("self_") or v in later]
             for v in joined:
                 if v != self.io and v not in saved and ty_a[v] != ty_b[v]:
                     self.refuse(st, "variable %s gets different types in the branches" % v)
@@ -2285,7 +2381,7 @@ class FnTr:
             for kx, vx in ty_a.items():
                 self.ty.setdefault(kx, vx)
             return p + ["if %s then" % c] + ["  " + x for x in a] + ["else"] + b
-        if isinstance(st, ast.Raise) and self.module is not None and (not self.loops or self.spec.get("out") in ("ArchiveinfoRecords", "ArchiveinfoSig")):
+        if isinstance(st, ast.Raise) and self.module is not None and (not self.loops or self.spec.get("out") in ("ArchiveinfoRecords", "ArchiveinfoSig", "DecompChain")):
             # raise E(...) : the function ends with Err (the arguments of the exception are not evaluated here: they must
             # be effect-free names / constants)
             x = st.exc
@@ -2302,6 +2398,9 @@ class FnTr:
                         and not a.keywords and a.func.id not in self.local_names():
                     return isinstance(a.args[0], (ast.Name, ast.Constant))
                 return False
+            if st.cause is None and isinstance(x, ast.Name) and x.id in EXC_ERR and x.id not in self.local_names() \
+                    and self.spec.get("out") == "DecompChain":
+                return ["Err %s" % EXC_ERR[x.id]]        # `raise E`: the class is instantiated without arguments
             if st.cause is not None or not (isinstance(x, ast.Call) and isinstance(x.func, ast.Name) and not x.keywords):
                 self.refuse(st, "raise form")
             pre = []
@@ -2558,7 +2657,7 @@ class FnTr:
             self.refuse(st, "while")
         if any(isinstance(n, ast.Return) for n in ast.walk(ast.Module(body=st.body, type_ignores=[]))):
             self.refuse(st, "return inside while")
-        state = [v for v in self.assigned(st.body) if v in self.ty or (v in ("inp", "out") and self.spec.get("out") in ("ArchiveinfoRecords", "ArchiveinfoSig"))]
+        state = [v for v in self.assigned(st.body) if v in self.ty or (v in ("inp", "out") and self.spec.get("out") in ("ArchiveinfoRecords", "ArchiveinfoSig", "DecompChain"))]
         if not state:
             self.refuse(st, "loop without state")
         pc, c = self.test(st.test)
@@ -2611,6 +2710,9 @@ class FnTr:
                 pre, xs, elty = p, "(py_enumerate %s)" % v, "tuple:int,bool"
             elif t.startswith("list:") and self.module is not None:
                 pre, xs, elty = p, "(py_enumerate %s)" % v, "tuple:int," + t[5:]
+                if t == "list:stage" and isinstance(it.args[0], ast.Name) and isinstance(st.target, ast.Tuple) and len(st.target.elts) == 2 \
+                        and all(isinstance(x, ast.Name) for x in st.target.elts):
+                    self.enum_ctx = dict(getattr(self, "enum_ctx", {}), **{st.target.elts[1].id: (st.target.elts[0].id, it.args[0].id)})
             else:
                 self.refuse(st, "enumerate arg type")
         else:
@@ -2619,7 +2721,7 @@ class FnTr:
                 pre, xs, elty = p, v, t[5:]
             elif t == "boollist":
                 pre, xs, elty = p, v, "bool"
-            elif t == "str" and self.spec.get("out") in ("ArchiveinfoRecords", "ArchiveinfoSig"):
+            elif t == "str" and self.spec.get("out") in ("ArchiveinfoRecords", "ArchiveinfoSig", "DecompChain"):
                 pre, xs, elty = p, v, "char"
             else:
                 self.refuse(st, "iteration over " + t)
@@ -2643,7 +2745,7 @@ class FnTr:
         else:
             self.refuse(st, "loop target")
         has_ret = any(isinstance(n, ast.Return) for n in ast.walk(ast.Module(body=st.body, type_ignores=[])))
-        if has_ret and (self.module is None or self.kind not in ("pure", "objfun")):
+        if has_ret and (self.module is None or (self.kind not in ("pure", "objfun") and not (self.kind == "objproc" and self.spec.get("retself")))):
             self.refuse(st, "return inside loop")
         state = [v for v in self.assigned(st.body) if v in self.ty or v in ("inp", "out")]
         if has_ret:
@@ -2733,7 +2835,7 @@ class FnTr:
                 if n.startswith("self_") or n in ("inp", "out"):
                     self.refuse(node, "a variable named " + n)
             # init_of: the class whose __init__ sets the attributes (a subclass that calls super().__init__() first)
-            ini = init_fields(self.module, self.spec.get("init_of", self.spec["cls"]))
+            ini = dict.fromkeys(self.fields) if self.spec.get("noinit") else init_fields(self.module, self.spec.get("init_of", self.spec["cls"]))
             for f in self.fields:
                 if f in ini:
                     continue
@@ -2780,6 +2882,8 @@ class FnTr:
             src = "self" if self.kind != "classinit" else "%s_init" % cls
             unpack = "\n".join("  let self_%s := %s_%s %s in" % (f, cls, f, src) for f in self.fields)
             rt = cls if self.kind != "objfun" else coq_ty(self.retty)
+            if self.spec.get("retself"):
+                rt = "(%s * %s)" % (cls, coq_ty(self.retty))
             head = "Definition %s %s%s : res %s :=\n%s" % (
                 self.spec["coqname"], "(self : %s) " % cls if self.kind != "classinit" else "", sig,
                 "(%s)" % rt if " " in rt and not rt.startswith("(") else rt, unpack)
@@ -2790,6 +2894,13 @@ class FnTr:
             unpack = "\n".join("  let self_%s := %s_%s self in" % (f, cls, f) for f in self.fields)
             if self.kind == "objreader":
                 rt = cls if self.retty == "self" else coq_ty(self.retty)
+                if self.spec.get("retself"):
+                    rt = "(%s * %s)" % (cls, coq_ty(self.retty))
+                if self.spec.get("short_reads"):
+                    # the file may return fewer bytes than asked for: rd = the most the (single) read of this call returns
+                    if "rd" in self.ty or "rd" in self.local_names():
+                        self.refuse(node, "a variable named rd")
+                    sig = (sig + " (rd : nat)").strip()
                 head = "Definition %s (self : %s) (inp : bytes) %s : res (%s * bytes) :=\n%s" % (
                     self.spec["coqname"], cls, sig, rt, unpack)
             else:
@@ -2805,7 +2916,7 @@ class FnTr:
                 rt = "(%s * (%s))" % (rt, " * ".join(coq_ty(t) for _, t in self.spec["state"].values()))
             head = "Definition %s %s : res %s :=" % (self.spec.get("coqname", self.name.split(".")[-1]), sig,
                                                      "(%s)" % rt if " " in rt and not rt.startswith("(") else rt)
-        stmts = self.lower(node.body) if self.module is not None and self.spec.get("out") in ("ArchiveinfoRecords", "ArchiveinfoSig") \
+        stmts = self.lower(node.body) if self.module is not None and self.spec.get("out") in ("ArchiveinfoRecords", "ArchiveinfoSig", "DecompChain") \
             and self.kind in ("objreader", "objwriter", "method", "objfun", "objproc", "classinit") else node.body
         if self.kind == "classinit":
             # obj = cls() ; ... obj.x ... ; return obj   ==   the same method body on a fresh object called self
